@@ -8,9 +8,12 @@ package signaling
 import (
 	"bytes"
 	"context"
+	"crypto/ed25519"
 	"crypto/hmac"
 	"crypto/sha256"
+	"crypto/x509"
 	"encoding/hex"
+	"encoding/pem"
 	"encoding/json"
 	"fmt"
 	"io"
@@ -26,6 +29,7 @@ import (
 	"time"
 
 	"github.com/dlintw/goconf"
+	"github.com/golang-jwt/jwt/v5"
 	"github.com/gorilla/mux"
 	"github.com/gorilla/websocket"
 )
@@ -135,10 +139,38 @@ func vC10BackendHandler(w http.ResponseWriter, r *http.Request) {
 	w.Write(data) // nolint
 }
 
+// key pair of the fake Nextcloud instances for hello v2 / federation tokens
+// (fixed seed: setup material, not an input of a case)
+var vC10TokenKey = ed25519.NewKeyFromSeed([]byte("verif-c10-federation-token-seed!"))
+
+func vC10PublicKeyPem() string {
+	der, err := x509.MarshalPKIXPublicKey(vC10TokenKey.Public())
+	if err != nil {
+		panic(err)
+	}
+	return string(pem.EncodeToMemory(&pem.Block{Type: "PUBLIC KEY", Bytes: der}))
+}
+
+func vC10FederationToken(issuer, userid string) string {
+	ud, _ := json.Marshal(map[string]string{"displayname": "Federated " + userid})
+	now := time.Now()
+	claims := &FederationTokenClaims{
+		RegisteredClaims: jwt.RegisteredClaims{Issuer: issuer, Subject: userid,
+			IssuedAt: jwt.NewNumericDate(now.Add(-time.Minute)), ExpiresAt: jwt.NewNumericDate(now.Add(time.Hour))},
+		UserData: ud,
+	}
+	tok, err := jwt.NewWithClaims(jwt.SigningMethodEdDSA, claims).SignedString(vC10TokenKey)
+	if err != nil {
+		panic(err)
+	}
+	return tok
+}
+
 func vC10CapabilitiesHandler(w http.ResponseWriter, r *http.Request) {
 	spreed, _ := json.Marshal(map[string]interface{}{
 		"features": []string{"foo", "federation-v2"},
-		"config":   map[string]interface{}{"signaling": map[string]interface{}{"foo": "bar"}},
+		"config": map[string]interface{}{"signaling": map[string]interface{}{"foo": "bar",
+			ConfigKeyHelloV2TokenKey: vC10PublicKeyPem()}},
 	})
 	vC10WriteOcs(w, &CapabilitiesResponse{
 		Version:      CapabilitiesVersion{Major: 20},
@@ -581,6 +613,18 @@ func (w *vC10World) barrier() (snd []string, by []string, ok bool) {
 			snd = append(snd, "timeout")
 			ok = false
 		}
+		if !w.snd.dead && ok && w.senderFederated() {
+			// what the federation target answers comes back over one connection, in order:
+			// a marker that is valid here, forwarded, and answered there with an error
+			rid := "vsync-r-" + strconv.Itoa(n)
+			w.snd.send(websocket.TextMessage, []byte(fmt.Sprintf(`{"id":%q,"type":"transient","transient":{"type":"vsync"}}`, rid))) // nolint
+			if !w.readUntil(w.snd, &snd, 5*time.Second, func(kind string, m *ServerMessage, sync bool, sn int, tag string) bool {
+				return m != nil && m.Type == "error" && m.Id == rid
+			}) {
+				snd = append(snd, "fedlink-timeout")
+				ok = false
+			}
+		}
 		if w.snd.dead {
 			w.settle(w.snd.pub)
 		} else if ok && !w.syncSession(w.snd, &snd) {
@@ -595,6 +639,20 @@ func (w *vC10World) barrier() (snd []string, by []string, ok bool) {
 		}
 	}
 	return
+}
+
+// senderFederated reports whether the sender's session currently forwards to a
+// federation target that has answered its hello.
+func (w *vC10World) senderFederated() bool {
+	if w.snd == nil {
+		return false
+	}
+	sess, _ := w.findSession(w.snd.pub).(*ClientSession)
+	if sess == nil {
+		return false
+	}
+	fc := sess.GetFederationClient()
+	return fc != nil && fc.hello.Load() != nil
 }
 
 func (w *vC10World) findSession(pub string) Session {
@@ -720,7 +778,7 @@ func (w *vC10World) idle(c *vC10Conn, kinds *[]string, d time.Duration) {
 
 // ---------- sender states ----------
 
-var vC10States = []string{"nosession", "session", "room", "roomr", "internal", "internalroom", "dialout"}
+var vC10States = []string{"nosession", "session", "room", "roomr", "internal", "internalroom", "dialout", "federated"}
 
 func (w *vC10World) dropSender() {
 	if w.pendingDone != nil {
@@ -766,6 +824,35 @@ func (w *vC10World) setState(state string) error {
 		}
 	case "dialout":
 		c, err = w.connectInternal([]string{"start-dialout"})
+	case "federated":
+		// a user of this hub joins a room of another signaling server through federation
+		if w.hub2 == nil {
+			w.hub2, w.server2, w.events2, err = vC10NewHub(w.t, false)
+			if err != nil {
+				return err
+			}
+		}
+		if c, err = w.connectUser("sender"); err == nil {
+			w.snd = c
+			err = c.sendJSON(map[string]interface{}{"id": "j", "type": "room", "room": map[string]interface{}{
+				"roomid": "fedroom-local", "sessionid": "rs-fed", "federation": map[string]string{
+					"signaling": w.server2.URL, "url": w.server2.URL, "roomid": "fedroom",
+					"token": vC10FederationToken(w.server2.URL, "feduser")}}})
+			if err == nil {
+				var kinds []string
+				joined := false
+				ok := w.readUntil(c, &kinds, 10*time.Second, func(kind string, m *ServerMessage, sync bool, sn int, tag string) bool {
+					if m != nil && m.Id == "j" {
+						joined = kind == "room"
+						return true
+					}
+					return false
+				})
+				if !ok || !joined {
+					err = fmt.Errorf("federated join failed: %v", kinds)
+				}
+			}
+		}
 	default:
 		return fmt.Errorf("unknown state %q", state)
 	}
@@ -964,7 +1051,14 @@ func (w *vC10World) race(n int) string {
 // ---------- digest of hub tables ----------
 
 func (w *vC10World) digest() string {
-	h := w.hub
+	d := vC10DigestHub(w.hub)
+	if w.hub2 != nil {
+		d += "\n== federation target\n" + vC10DigestHub(w.hub2)
+	}
+	return d
+}
+
+func vC10DigestHub(h *Hub) string {
 	var lines []string
 	h.mu.RLock()
 	sessions := make([]Session, 0, len(h.sessions))
